@@ -3,15 +3,20 @@
 # change is detected (exit 1 with a VIOLATION line). The tree is restored after each.
 # With WT=<scratch worktree of /repo> the changes are applied there and /repo stays untouched
 # (re-run the checks on /repo afterwards: the evidence files describe the last tree checked).
+# ONLY / SKIP: space-separated property ids to restrict the run to / to leave out (two runs on two
+# scratch worktrees can then share the work).
 tree=${WT:-/repo}
+log=/tmp/allseeds.$$.log
 for d in /verif/seeded/*/; do
   name=$(basename $d)
   id=${name%%-*}
+  if [ -n "$ONLY" ]; then case " $ONLY " in *" $id "*) ;; *) continue ;; esac; fi
+  if [ -n "$SKIP" ]; then case " $SKIP " in *" $id "*) continue ;; esac; fi
   if [ -n "$(git -C $tree status --porcelain)" ]; then echo "$tree not clean"; exit 2; fi
   git -C $tree apply $d/patch.diff 2>/dev/null || { echo "$name: patch does not apply"; continue; }
-  VERIF_REPO_DIR=$tree /verif/bin/vcheck $id ${TIER:-quick} > /tmp/allseeds.log 2>&1
+  VERIF_REPO_DIR=$tree /verif/bin/vcheck $id ${TIER:-quick} > $log 2>&1
   rc=$?
   git -C $tree checkout -- . ; git -C $tree clean -fdq -- . 2>/dev/null
-  echo "$name: rc=$rc $(grep -c '^VIOLATION' /tmp/allseeds.log) violation line(s); first: $(grep -A1 '^VIOLATION' /tmp/allseeds.log | sed -n 2p | cut -c1-110)"
+  echo "$name: rc=$rc $(grep -c '^VIOLATION' $log) violation line(s); first: $(grep -A1 '^VIOLATION' $log | sed -n 2p | cut -c1-110)"
 done
-rm -f /tmp/allseeds.log
+rm -f $log
